@@ -1,16 +1,47 @@
 ---------------------------- MODULE GenBase64 ----------------------------
-(* Generator: the reachable states ARE the test corpus. State = one byte string; Next appends a
-   boundary byte. TLC checks the algebra on the reference (Decode(Encode(x)) = x, length law) for
-   every state, and emits  [in, enc]  as JSON for the conformance harness. *)
-EXTENDS Base64, TLC, Json
-CONSTANTS Bytes, MaxLen
+(* Generator: the reachable states ARE the test corpus. State = one byte string.
+     - Init: the empty string and one seeded pseudo-random string for every length in RandLens (> MaxLen)
+     - Next: append a boundary byte while Len(s) < MaxLen  (=> every string over Bytes up to MaxLen)
+   TLC checks the algebra of the RFC 4648 reference for every state (inverse laws with and without padding,
+   length laws, canonical shape, tolerant decoder on three junk interleavings) and emits the case
+   for the conformance harness.  The junk-interleaved texts are built HERE, not in the rig. *)
+EXTENDS Base64, TextRand, TLC, Json, IOUtils
+CONSTANTS Bytes, MaxLen, RandLens
 VARIABLE s
-Init == s = << >>
+Seed == atoi(IOEnv.SEED)
+Init == s \in ({ << >> } \cup { RandBytes(Mix(Seed, n), n) : n \in RandLens })
 Next == /\ Len(s) < MaxLen
         /\ \E b \in Bytes : s' = Append(s, b)
 Spec == Init /\ [][Next]_s
-RoundTrip == Decode(Encode(s)) = s
-LenLaw    == Len(Encode(s)) = EncLen(Len(s))
-TolerantIgnoresJunk == DecodeTolerant(<<10>> \o Encode(s) \o <<32, 13>>) = s
-Emit == PrintT(ToJson([in |-> s, enc |-> Encode(s)]))
+
+\* non-alphabet characters: LF CR SP TAB @ - _ NUL 0xff ! . (none of them is '=' or an alphabet symbol)
+Junk == << 10, 13, 32, 9, 64, 45, 95, 0, 255, 33, 46 >>
+JunkAt(i) == Junk[(i % Len(Junk)) + 1]
+\* J1: one junk byte before every character and one at the end
+RECURSIVE J1From(_, _, _)
+J1From(t, i, acc) == IF i > Len(t) THEN Append(acc, JunkAt(i))
+                     ELSE J1From(t, i + 1, Append(Append(acc, JunkAt(i)), t[i]))
+J1(t) == J1From(t, 1, << >>)
+\* J2: CR LF after every third character (line-wrapped text, odd line length so that groups are split)
+RECURSIVE J2From(_, _, _)
+J2From(t, i, acc) == IF i > Len(t) THEN acc
+                     ELSE J2From(t, i + 1, IF i % 3 = 0 THEN acc \o << t[i], 13, 10 >> ELSE Append(acc, t[i]))
+J2(t) == J2From(t, 1, << >>)
+\* J3: junk only in front and behind
+J3(t) == << 32, 9, 0 >> \o t \o << 255, 10 >>
+
+E == Encode(s)
+RoundTrip        == Decode(E) = s
+RoundTripNoPad   == DecodeSyms(StripPad(E)) = s
+LenLaw           == Len(E) = EncLen(Len(s))
+DecLenLaw        == Len(s) = (3 * Len(StripPad(E))) \div 4
+PadLaw           == Len(E) - Len(StripPad(E)) = (3 - (Len(s) % 3)) % 3
+Canonical        == \A i \in 1..Len(E) : IsSym(E[i]) \/ (E[i] = Pad /\ i > Len(E) - 2)
+JunkIsJunk       == \A i \in 1..Len(Junk) : ~IsSym(Junk[i]) /\ Junk[i] # Pad
+TolerantIgnoresJunk == /\ DecodeTolerant(J1(E)) = s
+                       /\ DecodeTolerant(J2(E)) = s
+                       /\ DecodeTolerant(J3(E)) = s
+FilterLaw        == OnlySyms(J1(E)) = StripPad(E)
+Emit == PrintT(ToJson([in |-> s, enc |-> E, encnp |-> StripPad(E),
+                       j1 |-> J1(E), j2 |-> J2(E), j3 |-> J3(E), syms |-> OnlySyms(J1(E))]))
 =============================================================================
